@@ -123,15 +123,30 @@ def register_copy(world, heap, src, copy_root):
 # start graphs and inserted shapes
 # ------------------------------------------------------------------------------------------
 def build(gspec):
-    """gspec = (parent index lists per node, order of the constructor arguments)"""
-    plists, order = gspec
+    """gspec = (parent index lists per node, order of the constructor arguments[, container sources]).
+    container sources: triples (b, a, form) - node b takes its parents from the nodes_from OBJECT of
+    node a: form 'ctor' = OptNode(.., nodes_from=a.nodes_from), 'setter' = b.nodes_from = a.nodes_from
+    (a == b: self-assignment).  The documented meaning copies the list: every node owns its container."""
+    plists, order = gspec[0], gspec[1]
+    share = tuple(gspec[2]) if len(gspec) > 2 else ()
+    ctor_src = {b: a for (b, a, form) in share if form == 'ctor'}
     w = World()
     nodes = []
+    topological = all(p < i for i, ps in enumerate(plists) for p in ps)
     for i, ps in enumerate(plists):
-        n = OptNode(str(i))
+        if i in ctor_src and ctor_src[i] < i and topological:
+            n = OptNode(str(i), nodes_from=nodes[ctor_src[i]].nodes_from)
+        elif topological:
+            n = OptNode(str(i), nodes_from=[nodes[p] for p in ps])
+        else:
+            n = OptNode(str(i))
         nodes.append(n)
-    for i, ps in enumerate(plists):     # parents may have any index (cyclic start graphs are possible)
-        nodes[i].nodes_from = [nodes[p] for p in ps]
+    if not topological:                 # parents may have any index (cyclic start graphs are possible)
+        for i, ps in enumerate(plists):
+            nodes[i].nodes_from = [nodes[p] for p in ps]
+    for (b, a, form) in share:
+        if form == 'setter':
+            nodes[b].nodes_from = nodes[a].nodes_from
     for n in nodes:
         w.reg(n)
     graph = OptGraph([nodes[i] for i in order])
@@ -158,6 +173,11 @@ def make_shape(w, heap, shape):
         return w.fresh([w.objs[r] for r in shape[1]])
     if kind == 'member':
         return w.objs[shape[1]]
+    if kind == 'like':                  # a new node constructed from the parent container OBJECT of a member
+        n = OptNode(str(w.next_label), nodes_from=w.objs[shape[1]].nodes_from)
+        w.next_label += 1
+        w.reg(n)
+        return n
     if kind == 'copy':                  # relatives: a deep copy of a subtree of the same graph (shares uids)
         c = deepcopy(w.objs[shape[1]])
         if not register_copy(w, heap, shape[1], c):
@@ -293,6 +313,8 @@ def shapes_for(g, op, target=None, rich=True):
         out.append(('on_members', (g[0],)))
         if len(g) >= 2:
             out.append(('on_members', (g[0], g[-1])))
+        if op != 'updsub':
+            out.append(('like', g[0]))
         if op == 'add':
             out.append(('member', g[-1]))
             out.append(('copy', g[0]))
@@ -313,7 +335,8 @@ def applicable(heap, g, rich=True):
 
     def shapes(op, target):
         if rich == 'min':
-            return [('single',)] + ([('copy', target if target is not None else g[0])] if g else [])
+            return [('single',)] + ([('copy', target if target is not None else g[0])] if g else []) + \
+                ([('like', g[-1])] if g and op != 'updsub' else [])
         return shapes_for(g, op, target, rich)
     for s in shapes('add', None):
         ops.append(('add', s))
@@ -369,12 +392,16 @@ class Collector:
         self.sampled = False
 
     def add(self, group, gspec, descs, rec):
-        key = hashlib.sha1(repr((rec['heap'], rec['g'], rec['op'])).encode()).digest()
+        # the construction history of the containers is part of the identity of a case (aliasing is invisible
+        # in the snapshot)
+        key = hashlib.sha1(repr((rec['heap'], rec['g'], rec['op'], gspec[2:], 
+                                 [d for d in descs if d and isinstance(d[-1], tuple) and d[-1][:1] == ('like',)])).encode()).digest()
         if key in self.seen:
             return False
         self.seen.add(key)
         rec['group'] = group
-        rec['replay'] = {'graph': [list(map(list, gspec[0])), list(gspec[1])], 'ops': jsonable(descs)}
+        rec['replay'] = {'graph': [list(map(list, gspec[0])), list(gspec[1])] + ([jsonable(gspec[2])] if len(gspec) > 2 else []),
+                         'ops': jsonable(descs)}
         self.recs.append(rec)
         if len(self.recs) >= self.BATCH:
             self.flush()
@@ -418,12 +445,18 @@ def explore(col, group, gspec, depth, rich, rng=None, width=None):
 
 def random_gspec(rng, n):
     plists = []
+    share = []
     for i in range(n):
+        if i >= 2 and rng.random() < 0.15:      # built from the parent container of an earlier node
+            a = rng.randrange(1, i)
+            plists.append(plists[a])
+            share.append((i, a, rng.choice(['ctor', 'setter'])))
+            continue
         k = min(i, rng.choice([0, 1, 1, 2, 2, 3]))
         plists.append(tuple(rng.sample(range(i), k)))
     order = list(range(n))
     rng.shuffle(order)
-    return tuple(plists), tuple(order)
+    return tuple(plists), tuple(order), tuple(share)
 
 
 def random_sequence(col, group, rng, n, length):
@@ -539,6 +572,28 @@ def run(ctx):
                 for order, rich in variants:
                     explore(col, 'exhaustive-1', (pl, order), 1, rich)
     ctx.set_exhaustive('exhaustive-1', True)
+    # 1b. nodes built from / assigned another member's nodes_from object (constructor form, setter form,
+    #     self-assignment): every node must still own its parent container
+    for n in range(2, 5):
+        k = 0
+        for pl in dags(n):
+            pairs = [(b, a) for b in range(n) for a in range(b) if pl[a] == pl[b]]
+            for (b, a) in pairs:
+                forms = ('ctor', 'setter') if (thorough or n < 4) else (('ctor', 'setter')[k % 2],)
+                k += 1
+                for form in forms:
+                    explore(col, 'shared-source', (pl, tuple(range(n)), ((b, a, form),)), 1,
+                            True if thorough else 'min')
+            if n == 3 or thorough:
+                explore(col, 'shared-source', (pl, tuple(range(n)), tuple((i, i, 'setter') for i in range(n))), 1, 'min')
+    # ... followed by a second operation
+    for n in (2, 3):
+        for pl in dags(n):
+            for (b, a) in [(b, a) for b in range(n) for a in range(b) if pl[a] == pl[b]]:
+                for form in ('ctor', 'setter'):
+                    explore(col, 'shared-source', (pl, tuple(range(n)), ((b, a, form),)), 2, 'min', rng,
+                            ctx.budget(3, 12))
+    ctx.set_exhaustive('shared-source', False)
     # 2. sequences of length 2 (and 3)
     if thorough:
         for n in range(1, 4):
@@ -571,7 +626,8 @@ def replay(ctx, payload):
     case = v.get('case') if isinstance(v, dict) else None
     if not case or 'graph' not in case:
         return
-    gspec = (tuple(tuple(p) for p in case['graph'][0]), tuple(case['graph'][1]))
+    gspec = (tuple(tuple(p) for p in case['graph'][0]), tuple(case['graph'][1])) + \
+        ((untuple(case['graph'][2]),) if len(case['graph']) > 2 else ())
     descs = [untuple(d) for d in case['ops']]
     col = Collector(ctx)
     w, graph, recs, alive = play(gspec, descs)
